@@ -24,15 +24,25 @@ static double l1dist(const Pt& a, const Pt& b) {
   for (size_t i = 0; i < n; ++i) d += std::fabs(a[i] - b[i]);
   return d;
 }
+// Both harness kernels have STATE (a radius) that differs from the default-constructed one for every scripted sketch, and the
+// sketch receives the kernel object through the public constructor density_sketch(k, dim, kernel): a sketch that ran on a
+// default-constructed kernel instead would be visibly different (kernel0() is identically 0, kernel1() saturates at distance 0).
+// Kernel code in the scripts: kind = code % 4, radius = 20 - code / 4.
 struct kernel0 {
+  int r;
+  kernel0() : r(-1) {}
+  explicit kernel0(int radius) : r(radius) {}
   double operator()(const Pt& a, const Pt& b) const {
     double d = l1dist(a, b);
-    return d <= 20 ? std::ldexp(1.0, -(int)d) : 0.0;
+    return d <= r ? std::ldexp(1.0, -(int)d) : 0.0;
   }
 };
 struct kernel1 {
+  int r;
+  kernel1() : r(0) {}
+  explicit kernel1(int radius) : r(radius) {}
   double operator()(const Pt& a, const Pt& b) const {
-    double d = std::min(l1dist(a, b), 20.0);
+    double d = std::min(l1dist(a, b), (double)r);
     double s = (!a.empty() && std::fmod(std::fabs(a[0]), 2.0) == 1.0) ? -1.0 : 1.0;
     return s * std::ldexp(1.0, -(int)d);
   }
@@ -50,16 +60,16 @@ struct Reg {
   virtual std::string image(int path, unsigned header) = 0;
 };
 
-template<typename K> struct kind_of;
-template<> struct kind_of<kernel0> { static const int value = 0; };
-template<> struct kind_of<kernel1> { static const int value = 1; };
-template<> struct kind_of<gaussian_kernel<double>> { static const int value = 2; };
+template<typename K> struct make_kernel { static K of(int) { return K(); } };
+template<> struct make_kernel<kernel0> { static kernel0 of(int code) { return kernel0(20 - code / 4); } };
+template<> struct make_kernel<kernel1> { static kernel1 of(int code) { return kernel1(20 - code / 4); } };
 
 template<typename K> struct RegT : Reg {
   typedef density_sketch<double, K> sk_t;
+  int code;
   sk_t sk;
-  RegT(uint16_t k, uint32_t dim) : sk(k, dim) {}
-  explicit RegT(sk_t&& s) : sk(std::move(s)) {}
+  RegT(uint16_t k, uint32_t dim, int code_) : code(code_), sk(k, dim, make_kernel<K>::of(code_)) {}   // the PUBLIC constructor with a kernel
+  RegT(sk_t&& s, int code_) : code(code_), sk(std::move(s)) {}
   void update(const Pt& p) override { sk.update(p); }
   void merge(Reg& other) override { sk.merge(dynamic_cast<RegT<K>&>(other).sk); }
   void getters(Out& o) override {
@@ -84,9 +94,9 @@ template<typename K> struct RegT : Reg {
   }
   std::unique_ptr<Reg> roundtrip() override {
     auto bytes = sk.serialize();
-    return std::unique_ptr<Reg>(new RegT<K>(sk_t::deserialize(bytes.data(), bytes.size())));
+    return std::unique_ptr<Reg>(new RegT<K>(sk_t::deserialize(bytes.data(), bytes.size(), make_kernel<K>::of(code)), code));
   }
-  int kind() const override { return kind_of<K>::value; }
+  int kind() const override { return code; }
   // path 0: serialize(header) to a byte vector; path 1: serialize(ostream)
   std::string image(int path, unsigned header) override {
     if (path == 0) {
@@ -103,17 +113,17 @@ template<typename K> struct RegT : Reg {
 // content through the public API: R = 1, bytes consumed (stream path, else 0), k, dim, num_retained, n, is_estimation_mode,
 // then the iteration in order (weight, coordinate bit patterns).  Returns the register, or null when some coordinate is not an
 // integer-valued double (the model keeps no register for such a sketch either).
-template<typename K> static std::unique_ptr<Reg> decode(const std::string& img, int path, Out& o) {
+template<typename K> static std::unique_ptr<Reg> decode(int code, const std::string& img, int path, Out& o) {
   typedef density_sketch<double, K> sk_t;
   std::unique_ptr<sk_t> sk;
   I used = 0;
   if (path == 0) {
     std::unique_ptr<char[]> buf(new char[img.size()]);
     memcpy(buf.get(), img.data(), img.size());
-    sk.reset(new sk_t(sk_t::deserialize(buf.get(), img.size())));
+    sk.reset(new sk_t(sk_t::deserialize(buf.get(), img.size(), make_kernel<K>::of(code))));
   } else {
     std::stringstream ss(img, std::ios::in | std::ios::binary);
-    sk.reset(new sk_t(sk_t::deserialize(ss)));
+    sk.reset(new sk_t(sk_t::deserialize(ss, make_kernel<K>::of(code))));
     ss.clear();
     used = (I)(long)ss.tellg();
   }
@@ -129,12 +139,12 @@ template<typename K> static std::unique_ptr<Reg> decode(const std::string& img, 
     }
   }
   if (!integral) return std::unique_ptr<Reg>();
-  return std::unique_ptr<Reg>(new RegT<K>(std::move(*sk)));
+  return std::unique_ptr<Reg>(new RegT<K>(std::move(*sk), code));
 }
 static std::unique_ptr<Reg> decode_kind(int kind, const std::string& img, int path, Out& o) {
-  if (kind == 0) return decode<kernel0>(img, path, o);
-  if (kind == 1) return decode<kernel1>(img, path, o);
-  return decode<gaussian_kernel<double>>(img, path, o);
+  if (kind % 4 == 0) return decode<kernel0>(kind, img, path, o);
+  if (kind % 4 == 1) return decode<kernel1>(kind, img, path, o);
+  return decode<gaussian_kernel<double>>(kind, img, path, o);
 }
 
 static std::map<long, std::unique_ptr<Reg>> regs;
@@ -157,15 +167,16 @@ static void handler(const Line& t, Out& o) {
   case 1: { // new r k dim kind
     uint16_t k = (uint16_t)t.at(2); uint32_t dim = (uint32_t)t.at(3); int kind = (int)t.at(4);
     std::unique_ptr<Reg> p;
-    if (kind == 0) p.reset(new RegT<kernel0>(k, dim));
-    else if (kind == 1) p.reset(new RegT<kernel1>(k, dim));
-    else p.reset(new RegT<gaussian_kernel<double>>(k, dim));
+    if (kind % 4 == 0) p.reset(new RegT<kernel0>(k, dim, kind));
+    else if (kind % 4 == 1) p.reset(new RegT<kernel1>(k, dim, kind));
+    else p.reset(new RegT<gaussian_kernel<double>>(k, dim, kind));
     regs[(long)t.at(1)] = std::move(p);
     o.R(1); break; }
   case 2: { // update r coords*
     get(t.at(1)).update(point_of(t, 2)); o.R(1); break; }
   case 3: { // merge r r2
     Reg& a = get(t.at(1)); Reg& b = get(t.at(2));
+    if (a.kind() != b.kind()) throw std::invalid_argument("different kernels");   // the scripts only merge sketches of one kernel
     a.merge(b); o.R(1); break; }
   case 4: { // getters r
     get(t.at(1)).getters(o); break; }
@@ -177,6 +188,10 @@ static void handler(const Line& t, Out& o) {
   case 7: { // serialize r, deserialize into r2
     std::unique_ptr<Reg> p = get(t.at(1)).roundtrip();
     regs[(long)t.at(2)] = std::move(p);
+    o.R(1); break; }
+  case 12: { // bulk update r count start step: count points (start + i * step) of dimension 1 (implementation-only family)
+    Reg& a = get(t.at(1));
+    for (I i = 0; i < t.at(2); ++i) a.update(Pt(1, (double)(int64_t)(t.at(3) + i * t.at(4))));
     o.R(1); break; }
   case 8: { // serialize r path header  (bytes in R)
     std::string img = get(t.at(1)).image((int)t.at(2), (unsigned)t.at(3));
